@@ -80,8 +80,9 @@ theorem state_accepted_iff (E : Go.Ext) (n hashed : Str) :
     Gen.Tr.CheckOAuthState E (some n) hashed = .ok true ↔ hashed = b64Encode true false (E.sha n) := by
   rw [CheckOAuthState_eq]
   simp only [Except.ok.injEq, checkNonce, hashNonce]
-  rw [decide_eq_true_iff]
-  exact eq_comm
+  constructor
+  · intro h; exact (of_decide_eq_true h).symm
+  · intro h; exact decide_eq_true h.symm
 
 /-- … and the state `/oauth2/start` issues for that cookie is accepted by it -/
 theorem own_state_accepted (E : Go.Ext) (n : Str) :
